@@ -197,7 +197,12 @@ RowOK(X, k, rin, rout) ==
       [] k = "x_anno_elem" -> AnnoElemOK(X, rin, rout)
       [] k \in SigKinds -> (SigDetermined(X.R, rin[3]) => rout = MapRowM(X, k, rin, "dfs"))
       [] OTHER -> rout = MapRowM(X, k, rin, "dfs") \/ rout = MapRowM(X, k, rin, "bfs")
-RowsOK(X, k, rin, rout) == Len(rout) = Len(rin) /\ \A i \in DOMAIN rin : RowOK(X, k, rin[i], rout[i])
+(* a kind may carry the zone of the class file its rows stand in ("anno_type@param": inside parameter  *)
+(* annotations, "signature@record": inside a record component); the law is that of the kind itself     *)
+RECURSIVE AtPos(_, _)
+AtPos(k, i) == IF i > Len(k) THEN 0 ELSE IF Ch(k, i) = "@" THEN i ELSE AtPos(k, i + 1)
+BaseKind(k) == LET p == AtPos(k, 1) IN IF p = 0 THEN k ELSE SubSeq(k, 1, p - 1)
+RowsOK(X, k, rin, rout) == LET b == BaseKind(k) IN Len(rout) = Len(rin) /\ \A i \in DOMAIN rin : RowOK(X, b, rin[i], rout[i])
 (* kinds whose result the law determines uniquely (the others are judged as relations) *)
 DeterminedKinds == RefKinds
 
@@ -318,7 +323,7 @@ JarLaw(X, J, O, WF(_)) ==
 ---------------------------------------------------------------------------
 (* RemapJar, declaratively, on abstract jars (name -> entry) whose class entries carry reference lists. *)
 (* entry: [k |-> "dir"] | [k |-> "other", id] | [k |-> "class", this, rows, res]                         *)
-RemapRows(X, rows) == [k \in DOMAIN rows |-> [i \in DOMAIN rows[k] |-> MapRow(X, k, rows[k][i])]]
+RemapRows(X, rows) == [k \in DOMAIN rows |-> LET b == BaseKind(k) IN [i \in DOMAIN rows[k] |-> MapRow(X, b, rows[k][i])]]
 RemapClass(X, c) == [c EXCEPT !.this = MapC(X, c.this), !.rows = RemapRows(X, c.rows)]
 OutName(X, n, e) == IF e.k = "class" THEN (CHOOSE t \in OutNames(X, n, e.this) : TRUE) ELSE n
 TargetsA(X, J, n) == IF J[n].k = "class" THEN OutNames(X, n, J[n].this) ELSE {n}
@@ -330,13 +335,13 @@ RemapJar(X, J) ==
 (* the traversal applied to a whole class *)
 RECURSIVE ConcatAll(_)
 ConcatAll(ss) == IF ss = <<>> THEN <<>> ELSE Head(ss) \o ConcatAll(Tail(ss))
-CodeRows(X, rows, asCoded) == [k \in DOMAIN rows |-> ConcatAll([i \in DOMAIN rows[k] |-> CodeRow(X, k, rows[k][i], asCoded)])]
+CodeRows(X, rows, asCoded) == [k \in DOMAIN rows |-> ConcatAll([i \in DOMAIN rows[k] |-> CodeRow(X, BaseKind(k), rows[k][i], asCoded)])]
 
 ---------------------------------------------------------------------------
 (* The reference list of a generated class (the model of cfkit::refs on the classes the harness       *)
 (* assembles from such a description; document order within each kind).                               *)
 (* class: [this, super, itfs, fields, methods, items]; fields / methods: <<<<name, desc>>, ..>>;       *)
-(* every class has a last method $car()V that carries the code-level items.                           *)
+(* every class but module-info has a last method $car()V that carries the code-level items.           *)
 Carrier == <<"$car", "()V">>
 Row3(o, n, d) == <<o, n, d>>
 ArgRows(args, tag, mk(_)) == ConcatAll([i \in DOMAIN args |-> IF args[i][1] = tag THEN <<mk(args[i])>> ELSE <<>>])
@@ -375,7 +380,7 @@ Refs(c) ==
            [] k = "super" -> IF c.super = "" THEN <<>> ELSE <<Row3(c.super, "", "")>>
            [] k = "interface" -> [i \in DOMAIN c.itfs |-> Row3(c.itfs[i], "", "")]
            [] k = "field_decl" -> [i \in DOMAIN c.fields |-> Row3(c.this, c.fields[i][1], c.fields[i][2])]
-           [] k = "method_decl" -> [i \in DOMAIN c.methods |-> Row3(c.this, c.methods[i][1], c.methods[i][2])] \o <<Row3(c.this, Carrier[1], Carrier[2])>>
+           [] k = "method_decl" -> [i \in DOMAIN c.methods |-> Row3(c.this, c.methods[i][1], c.methods[i][2])] \o (IF c.this = "module-info" THEN <<>> ELSE <<Row3(c.this, Carrier[1], Carrier[2])>>)
            [] OTHER -> <<>>)
         \o ConcatAll([i \in DOMAIN c.items |-> ItemRows(c.this, c.items[i], k)])]
 =============================================================================
